@@ -1,5 +1,3 @@
-//go:build verif && wip
-
 package pure
 
 import (
@@ -19,6 +17,7 @@ import (
 	sdkmath "cosmossdk.io/math"
 
 	"github.com/cosmos/cosmos-sdk/codec"
+	"github.com/cosmos/cosmos-sdk/codec/unknownproto"
 	codectypes "github.com/cosmos/cosmos-sdk/codec/types"
 	sdk "github.com/cosmos/cosmos-sdk/types"
 	banktypes "github.com/cosmos/cosmos-sdk/x/bank/types"
@@ -170,6 +169,21 @@ func (m *c47) clone(msg proto.Message) proto.Message {
 	return out
 }
 
+// txDecodable mirrors the transaction decoder's filter: the SDK rejects bytes with unknown critical fields or unresolvable
+// Any type URLs (recursively) before it unmarshals a message, so such bytes never reach UnpackInterfaces / ValidateBasic.
+func (m *c47) txDecodable(bz []byte, fresh reflect.Value) bool {
+	pm, ok := fresh.Interface().(proto.Message)
+	if !ok {
+		return true
+	}
+	okk := false
+	if pv, _ := guard(func() { _, err := unknownproto.RejectUnknownFields(bz, pm, true, m.reg); okk = err == nil }); pv != nil {
+		m.c.Inc("obs_unknown_field_filter_panicked")
+		return false
+	}
+	return okk
+}
+
 // judgeMsg pushes one generated value through stateless validation: directly, and — the authoritative path — after a
 // real wire round trip (marshal → codec unmarshal incl. interface unpacking → validate), plus byte-mutants of the wire form.
 func (m *c47) judgeMsg(r *kit.Rng, msg proto.Message, how string, touched []string) {
@@ -211,7 +225,10 @@ func (m *c47) judgeMsg(r *kit.Rng, msg proto.Message, how string, touched []stri
 		fresh := reflect.New(reflect.TypeOf(msg).Elem())
 		var uerr error
 		decoded := false
-		if m.runJ(false, tname+".Unmarshal", bz, wit, func() {
+		if !m.txDecodable(bz, fresh) {
+			c.Inc("wire_rejected_by_unknown_field_filter")
+			outcome = "wire-filtered"
+		} else if m.runJ(false, tname+".Unmarshal", bz, wit, func() {
 			if pm, ok := fresh.Interface().(codec.ProtoMarshaler); ok {
 				uerr = m.cdc.Unmarshal(bz, pm)
 			} else {
@@ -265,6 +282,11 @@ func (m *c47) judgeMsg(r *kit.Rng, msg proto.Message, how string, touched []stri
 			fresh := reflect.New(reflect.TypeOf(msg).Elem())
 			var uerr error
 			mw := func() map[string]any { return map[string]any{"type": tname, "how": "wire-mutant " + kinds} }
+			if !m.txDecodable(in, fresh) {
+				c.Inc("wire_mutant_filtered")
+				c.Eval("wiremut|" + tname + "|filtered")
+				continue
+			}
 			if m.runJ(false, tname+".Unmarshal", in, mw, func() {
 				if pm, ok := fresh.Interface().(codec.ProtoMarshaler); ok {
 					uerr = m.cdc.Unmarshal(in, pm)
@@ -911,16 +933,17 @@ func TestC47(t *testing.T) {
 			"a recovered panic is a violation whose signature is (innermost ibc-go function, input class); distinct = (target, generator, outcome class)")
 	defer c.Finish()
 	c.Assume("a panic reached only by a Go value that no wire decoding can produce (e.g. an Any caching a value of the wrong interface) is counted but not judged")
-	c.Floor("wire_validated", 8000)
-	c.Floor("validation_accepted", 300)
-	c.Floor("validation_rejected", 5000)
-	c.Floor("wire_mutant_validated", 2000)
-	c.Floor("parser_calls", 20000)
-	c.Floor("memo_cases", 2500)
-	c.Floor("callback_data_parsed", 100)
-	c.Floor("pfm_metadata_parsed", 100)
-	c.Floor("decoder_calls", 8000)
-	c.Floor("msg_types_exercised", 40)
+	c.Floor("wire_validated", 1500)
+	c.Floor("absent_field_variants", 150)
+	c.Floor("validation_accepted", 400)
+	c.Floor("validation_rejected", 1000)
+	c.Floor("wire_mutant_validated", 400)
+	c.Floor("parser_calls", 60000)
+	c.Floor("memo_cases", 800)
+	c.Floor("callback_data_parsed", 60)
+	c.Floor("pfm_metadata_parsed", 60)
+	c.Floor("decoder_calls", 1600)
+	c.Floor("msg_types_exercised", 30)
 
 	m := &c47{c: c, sigSeen: map[string]int{}}
 	if out := os.Getenv("VERIF_OUT"); out != "" {
@@ -941,7 +964,7 @@ func TestC47(t *testing.T) {
 	bzTs := m.byteTargets()
 	exercised := map[string]bool{}
 
-	n := c.N(6000, 40000)
+	n := c.N(5000, 40000)
 	for i := 0; i < n; i++ {
 		if c.SkipCase(i) {
 			continue
@@ -955,9 +978,17 @@ func TestC47(t *testing.T) {
 			// corpus message with 1–3 fields replaced
 			src := m.corpus[r.Intn(len(m.corpus))]
 			if cp := m.clone(src); cp != nil {
-				touched := f.mutateMsg(cp, 0)
 				exercised[typeShort(reflect.TypeOf(cp))] = true
-				m.judgeMsg(r, cp, "corpus-mutant", touched)
+				if r.Chance(2, 5) {
+					// exactly one optional sub-message absent
+					if name := f.absentField(cp, 0); name != "" {
+						c.Inc("absent_field_variants")
+						m.judgeMsg(r, cp, "corpus-field-absent", []string{name})
+					}
+				} else {
+					touched := f.mutateMsg(cp, 0)
+					m.judgeMsg(r, cp, "corpus-mutant", touched)
+				}
 			} else {
 				c.Inc("corpus_clone_failed")
 			}
